@@ -20,7 +20,7 @@ operations; CASE, CAST to integer types, IN lists; GROUP BY with count/sum/min/m
                           (`saKind_sound`, all strings) or raises, and `get_string` then returns the
                           original statement (`saRender`).
                           `C06_regress_*` pin the former defects (now correct);
-                          `C06_witness_7` (`||` with a `*` operand) is still open.
+                          no witness of an open defect is left.
 * `C06_dml_partial`    : INSERT … VALUES / UPDATE / DELETE leave the same table contents.
 * `C06_grouping`       : (T6.2) for every operator tree of the fragment — any size — accepted by
                           `saOk`, the text SQLAlchemy prints is regrouped by sqlite's precedence to
@@ -49,6 +49,18 @@ theorem C06_partial (env : Env) (db : Db) (q : Query) (h : okQ q = true) :
 theorem C06_partial_norm (env : Env) (db : Db) (q : Query) (h : okQ q = true)
     (hr : raisesQ q = false) : evalQuery env db (saNorm q) = evalQuery env db q :=
   evalQuery_saNorm env db q h hr
+
+/-- full statement for statements with sub-queries (slots: uncorrelated sub-queries in FROM, IN,
+EXISTS, as a value; nested to any depth) -/
+def C06_nested_full : Prop :=
+  ∀ (env : Env) (db : Db) (n : Nested), evalNested env db (saRenderN n) = evalNested env db n
+
+/-- proved for all table contents and all statements whose queries lie in the modelled fragment.
+Correlated sub-queries (a reference to a column of an enclosing query) are not expressible in
+`Nested` and remain with the execution probe. -/
+theorem C06_nested_partial (env : Env) (db : Db) (n : Nested) (h : okN n = true) :
+    evalNested env db (saRenderN n) = evalNested env db n :=
+  evalNested_saRenderN env db n h
 
 theorem C06_dml_partial (env : Env) (db : Db) (s : Stmt) (h : okStmt s = true) :
     exec env db (saStmt s) = exec env db s :=
@@ -83,7 +95,7 @@ theorem C06_alias (t : Target) (a : String) (h : t.alias = some a) : (saTarget t
 
 /-! ### regression examples for the repaired defects, and the class that is still open -/
 
-private def env0 : Env := ⟨fun _ _ => none, true⟩
+private def env0 : Env := ⟨fun _ _ => none, true, fun _ => []⟩
 /-- table 0 = `t(a)`, table 1 = `u(a)` -/
 private def dbL : Db := ⟨fun _ => 1, fun t => if t = 0 then [[some 1]] else []⟩
 private def dbR : Db := ⟨fun _ => 1, fun t => if t = 0 then [] else [[some 1]]⟩
@@ -162,14 +174,30 @@ example : saNormE (.not (.inl false (.col 0) (.tcons (.int 1) .tnil))) =
     .inl true (.col 0) (.tcons (.int 1) .tnil) := by decide
 example : evalQuery env0 dbL (saRender q2) = [[some 1, some 1, some 1]] := by decide +kernel
 
+/-- `SELECT s.a, (SELECT max(a) FROM t) FROM (SELECT a FROM t WHERE NOT (a IS NULL)) AS s
+     WHERE NOT (s.a IN (SELECT a FROM u)) AND EXISTS (SELECT a FROM t)`:
+slot 0 = `SELECT a FROM t WHERE NOT (a IS NULL)`, slot 1 = `SELECT a FROM u`,
+slot 2 = `SELECT max(a) FROM t` (refers to no slot), slot 3 = `SELECT a FROM (slot 0) AS s` -/
+private def n1 : Nested :=
+  { subs :=
+      [.select ⟨false, [⟨.col 0, none⟩], .table 0, some (.not (.cmp .is (.col 0) .null)), [], none, none⟩,
+       .select ⟨false, [⟨.col 0, none⟩], .table 1, none, [], none, none⟩,
+       .gselect ⟨[.agg .max (.col 0)], .table 0, none, [], none, [], none, none⟩,
+       .select ⟨false, [⟨.col 0, none⟩], .sub 0 1, none, [], none, none⟩]
+    main := .select ⟨false, [⟨.col 0, none⟩, ⟨.scalar 2, none⟩], .sub 3 1,
+      some (.and (.not (.inq false (.col 0) 1)) (.exists_ 0)), [], none, none⟩ }
+
+example : okN n1 = true ∧ raisesN n1 = false := by decide +kernel
+example : evalNested env0 dbL (saRenderN n1) = [[some 1, some 1]] := by decide +kernel
+
 example : okStmt (.update 0 [(0, .ar .add (.col 0) (.int 1))] (some (.not onEq))) = true := by
   decide +kernel
 
 /-! ## T6.2 — operand grouping -/
 
 /-- operators of the method table that are outside the grouping theorem: `in` / `not in` (list
-operand) and `||` (see `C06_witness_7`).  `/` is inside since 0c1e34d (printed as written). -/
-def outside : List String := ["in", "not in", "||"]
+operand).  `/` is inside since 0c1e34d (printed as written), `||` since d751fe6. -/
+def outside : List String := ["in", "not in"]
 
 def binsOf (skip : List String) : List (Nat × String) :=
   (SaPrec.bins.filter fun r => !skip.contains r.2.1).map fun r => (r.1, r.2.2.1)
@@ -262,18 +290,17 @@ theorem C06_regress_5b :
     saParens saPolicy (.bin 6 (.bin 6 (.atom 0) (.atom 1)) (.atom 2)) =
       .bin 6 (.paren (.bin 6 (.atom 0) (.atom 1))) (.atom 2) := by decide
 
-/-- `||` (KF-C06-11, narrowed): the renderer groups its operands against `mul` (75aca2f), which
-exempts an operand built with `*` itself: `c0 || (c1 + c2)` keeps its parentheses, but
-`c0 || (c1 * c2)` is printed `c0 || c1 * c2`, which sqlite reads `(c0 || c1) * c2`; with `||` in the
-fragment the obligation fails -/
-theorem C06_witness_7 :
-    compatible saPolicy (sqliteP ["in", "not in"]) (frag ["in", "not in"]) = false ∧
+/-- (was KF-C06-11, fixed 75aca2f + d751fe6) the renderer groups the operands of `||` against
+`neg` (rank 8, no exemption): `c0 || (c1 + c2)` and `c0 || (c1 * c2)` keep their parentheses and
+regroup to themselves; `||` is inside the fragment of `phi6_compatible` -/
+theorem C06_regress_7 :
     saParens saPolicy (.bin 19 (.atom 0) (.bin 4 (.atom 1) (.atom 2))) =
       .bin 19 (.atom 0) (.paren (.bin 4 (.atom 1) (.atom 2))) ∧
     (let e : OPM.Expr := .bin 19 (.atom 0) (.bin 3 (.atom 1) (.atom 2))
      saOk saPolicy e = true ∧
-     parse (sqliteP ["in", "not in"]) (print (sqliteP ["in", "not in"]) (saParens saPolicy e)) [] none =
-       some (.bin 3 (.bin 19 (.atom 0) (.atom 1)) (.atom 2))) := by decide +kernel
+     saParens saPolicy e = .bin 19 (.atom 0) (.paren (.bin 3 (.atom 1) (.atom 2))) ∧
+     parse (sqliteP outside) (print (sqliteP outside) (saParens saPolicy e)) [] none =
+       some (saParens saPolicy e)) := by decide +kernel
 
 /-- non-vacuity: `NOT (c0 + c1 * c2 = c3 AND c4 BETWEEN c5 + c6 AND - c7) OR c8 <> c9`-like tree -/
 private def g1 : OPM.Expr :=
